@@ -116,7 +116,18 @@ theorem binWith_nest (layer : Layer) (ws : List Layer) (m : Nat) (hm : ws.length
   rw [← ops_succ_bin m op hs]
   exact bin_nest (layer :: ws) (m+1) (by simpa using hm) op hs L R l r
 
-/-- radix ≠ 2: the repeated multiplication by the radix -/
+/-- a product that cannot overflow: its type is the type of every product of the operand types -/
+theorem cBin_mul_zero (A : IntTy) (ρ : Nat) :
+    cBin .mul (A, 0) (i32, (ρ : Int)) = .ok (usualArith A i32, 0) := by
+  have hb : 1 ≤ (usualArith A i32).bits := ScaledP.usualArith_bits_pos A i32
+  have h0 : (usualArith A i32).InRange 0 := Cnl.Rounding.zero_le_max _
+  simp only [cBin, IntTy.wrap_id hb h0, Int.zero_mul]
+  exact Cnl.arith_ok hb h0
+
+theorem maxOfTy_nest (ws : List Layer) (T : IntTy) : maxOfTy (nest ws T) = .ok (nest ws T, T.max) := by
+  simp only [maxOfTy, innermost_nest]
+
+/-- radix ≠ 2: the repeated multiplication by the radix, each step under its assertion -/
 theorem powerGo_nest (layer : Layer) (ws : List Layer) (m : Nat) (hm : ws.length ≤ m) (ρ : Nat) :
     ∀ (n : Nat) (A : IntTy) (a : Int) (p : TV), powerValueInt.go ρ n (A, a) = .ok p →
       powerGoWith (ops m) ρ n (layer.wrap (nest ws A), a) = .ok (layer.wrap (nest ws p.1), p.2) := by
@@ -129,13 +140,29 @@ theorem powerGo_nest (layer : Layer) (ws : List Layer) (m : Nat) (hm : ws.length
   | succ n ih =>
     intro A a p h
     simp only [powerValueInt.go] at h
-    simp only [powerGoWith, binWith_nest_int layer ws m hm .mul rfl]
-    cases hc : cBin .mul (A, a) (i32, (ρ : Int)) with
-    | ok v =>
-      rw [hc] at h
-      simp only [Res.map, Res.bind_ok]
-      exact ih v.1 v.2 p h
-    | _ => rw [hc] at h; simp at h
+    have hmx := maxOfTy_nest (layer :: ws) (usualArith A i32)
+    simp only [nest] at hmx
+    simp only [powerGoWith, binWith_nest_int layer ws m hm .mul rfl, cBin_mul_zero, Res.map, Res.bind_ok, hmx,
+      binWith_nest_int layer ws m hm .div rfl]
+    cases hd : cBin .div (usualArith A i32, (usualArith A i32).max) (i32, (ρ : Int)) with
+    | ok bound =>
+      simp only [hd] at h
+      have hc := cmp_nest (layer :: ws) (m+1) (by simpa using hm) .le A bound.1 a bound.2
+      simp only [nest] at hc
+      have hc' : cmpWith (ops m) .le (layer.wrap (nest ws A), a) (layer.wrap (nest ws bound.1), bound.2)
+          = .ok (cCmp .le (A, a) bound) := hc
+      simp only [Res.bind_ok, hc']
+      cases hle : cCmp .le (A, a) bound with
+      | true =>
+        simp only [hle, ite_true] at h
+        cases hc2 : cBin .mul (A, a) (i32, (ρ : Int)) with
+        | ok v =>
+          simp only [hc2] at h
+          simp only [Res.bind_ok]
+          exact ih v.1 v.2 p h
+        | _ => simp [hc2] at h
+      | false => simp [hle] at h
+    | _ => simp [hd] at h
 
 /-- radix 2: `decltype(s >> constant<digits-1>){1} << constant<k>` -/
 theorem cBin_shl_one (T : IntTy) (k : Nat) (hk : k < (promote T).digits) :
@@ -176,20 +203,12 @@ theorem cBin_not_ill (op : BinOp) (x y : TV) (msg : String) : cBin op x y ≠ .i
   unfold cBin arith
   cases op <;> simp only <;> (repeat' split) <;> simp
 
-theorem scaleInt_not_ill (k : Int) (ρ : Nat) (T : IntTy) (v : Int) (h : PowWF T k ρ) (msg : String) :
-    scaleInt k ρ (T, v) ≠ .ill msg := by
-  obtain ⟨p, hp⟩ := (isOk_iff _).1 h
-  unfold scaleInt
-  by_cases hk : k ≥ 0
-  · have : k.toNat = k.natAbs := by omega
-    simp only [hk, ite_true, this, hp, Res.bind_ok]
-    exact cBin_not_ill _ _ _ _
-  · have : (-k).toNat = k.natAbs := by omega
-    simp only [hk, ite_false, this, hp, Res.bind_ok]
-    exact cBin_not_ill _ _ _ _
-
 theorem illOr_of_not_ill {α β : Type} (r : Res α) (d : Res β) (h : ∀ m, r ≠ .ill m) : illOr r d = d := by
   cases r <;> first | rfl | exact absurd rfl (h _)
+
+/-- … and when the type named is ill-formed exactly when the value is -/
+theorem illOr_map {α β γ : Type} (r : Res α) (f : α → β) (g : α → γ) : illOr (r.map f) (r.map g) = r.map g := by
+  cases r <;> rfl
 
 theorem ops_scale_int (n : Nat) (k : Int) (ρ : Nat) (T : IntTy) (v : Int) :
     (ops n).scale k ρ (.int T, v) = (scaleInt k ρ (T, v)).map (fun v => (.int v.1, v.2)) := by
@@ -211,8 +230,13 @@ theorem defaultScaleWith_nest (layer : Layer) (hl : layer.isSc = false) (ws : Li
     simp only [hk, ite_true, e, hp, powerValueWith_nest layer hl ws hw m hm T _ ρ p hp, Res.bind_ok]
     exact binWith_nest layer ws m hm .mul rfl T p.1 v p.2
   · have e : (-k).toNat = k.natAbs := by omega
-    simp only [hk, ite_false, e, hp, powerValueWith_nest layer hl ws hw m hm T _ ρ p hp, Res.bind_ok]
-    exact binWith_nest layer ws m hm .div rfl T p.1 v p.2
+    have hc := cmp_nest_int (layer :: ws) (m+1) (by simpa using hm) .gt p.1 i32 p.2 0
+    simp only [nest] at hc
+    have hc' : cmpWith (ops m) .gt (layer.wrap (nest ws p.1), p.2) (.int i32, 0) = .ok (cCmp .gt p (i32, 0)) := hc
+    simp only [hk, ite_false, e, hp, powerValueWith_nest layer hl ws hw m hm T _ ρ p hp, Res.bind_ok, hc']
+    cases hg : cCmp .gt p (i32, 0) with
+    | true => simp only [ite_true]; exact binWith_nest layer ws m hm .div rfl T p.1 v p.2
+    | false => rfl
 
 /-- **`scale<k, ρ>` of a native wrapper nest** is `scale<k, ρ>` of the innermost integer, re-wrapped:
 value, promoted representation type and undefined cases -/
@@ -236,12 +260,8 @@ theorem scale_nest (ws : List Layer) (hw : Wrappers ws) : ∀ (n : Nat), ws.leng
       | sc radix => simp [Layer.isSc] at hl
       | ov =>
         simp only [Layer.wrap, scaleWith] at hdef ⊢
-        rw [ihv, illOr_of_not_ill]
-        · exact hdef
-        · intro msg hs
-          cases hc : scaleInt k ρ (T, v) with
-          | ill m => exact absurd hc (scaleInt_not_ill k ρ T v h m)
-          | _ => rw [hc] at hs; cases hs
+        rw [ihv, hdef]
+        exact illOr_map _ _ _
       | rd =>
         simp only [Layer.wrap, scaleWith] at hdef ⊢
         by_cases hk : k ≥ 0
@@ -456,14 +476,22 @@ theorem go_ty (ρ : Nat) : ∀ (n : Nat) (A : IntTy) (a : Int) (p : TV), powerVa
   | succ n ih =>
     intro A a p h
     simp only [powerValueInt.go] at h
-    cases hc : cBin .mul (A, a) (i32, (ρ : Int)) with
-    | ok v =>
-      rw [hc] at h
-      have hv : v.1 = promote A := by rw [cBin_ty .mul rfl _ _ _ hc]; exact Cnl.Rounding.usualArith_i32 A
-      rcases ih v.1 v.2 p h with h1 | h1
-      · exact Or.inr (by rw [h1, hv])
-      · exact Or.inr (by rw [h1, hv, Cnl.Rounding.promote_promote])
-    | _ => rw [hc] at h; simp at h
+    cases hd : cBin .div (usualArith A i32, (usualArith A i32).max) (i32, (ρ : Int)) with
+    | ok bound =>
+      simp only [hd] at h
+      cases hle : cCmp .le (A, a) bound with
+      | true =>
+        simp only [hle, ite_true] at h
+        cases hc : cBin .mul (A, a) (i32, (ρ : Int)) with
+        | ok v =>
+          simp only [hc] at h
+          have hv : v.1 = promote A := by rw [cBin_ty .mul rfl _ _ _ hc]; exact Cnl.Rounding.usualArith_i32 A
+          rcases ih v.1 v.2 p h with h1 | h1
+          · exact Or.inr (by rw [h1, hv])
+          · exact Or.inr (by rw [h1, hv, Cnl.Rounding.promote_promote])
+        | _ => simp [hc] at h
+      | false => simp [hle] at h
+    | _ => simp [hd] at h
 
 theorem powerValueInt_ty (S : IntTy) (k ρ : Nat) (p : TV) (h : powerValueInt S k ρ = .ok p) :
     p.1 = S ∨ p.1 = promote S := by
@@ -500,7 +528,16 @@ theorem scaleInt_ty (k : Int) (ρ : Nat) (T : IntTy) (v : Int) (a : TV) (h : sca
     | _ => rw [hp] at h; cases h
   by_cases hk : k ≥ 0
   · simp only [hk, ite_true] at h; exact key _ .mul rfl h
-  · simp only [hk, ite_false] at h; exact key _ .div rfl h
+  · simp only [hk, ite_false] at h
+    apply key (-k).toNat .div rfl
+    cases hp : powerValueInt T (-k).toNat ρ with
+    | ok p =>
+      rw [hp] at h
+      simp only [Res.bind_ok] at h ⊢
+      split at h
+      · exact h
+      · cases h
+    | _ => rw [hp] at h; cases h
 
 theorem resultExp_zeroDegree (op : BinOp) (h : Scaled.isZeroDegree op = true) (eL eR : Int) :
     Scaled.resultExp op eL eR = min eL eR := by
